@@ -100,9 +100,11 @@ func (l *c28Link) pump(src, dst net.Conn, p *c28Pump, s2c bool) {
 					cut := l.cutS2C
 					p.mu.Unlock()
 					if cut >= 0 && cut < len(chunk) {
+						// the link breaks in the middle of this chunk: both directions see the peer go away
 						_, _ = dst.Write(chunk[:cut])
 						dead = true
-						l.closeAll()
+						_ = l.a.Close()
+						_ = l.b.Close()
 					} else if cut >= 0 {
 						p.mu.Lock()
 						l.cutS2C -= len(chunk)
@@ -110,9 +112,11 @@ func (l *c28Link) pump(src, dst net.Conn, p *c28Pump, s2c bool) {
 					}
 				}
 				if !dead {
+					// A failed write means the destination's user closed its end. The data is dropped; the
+					// close itself travels in the other pump (EOF after the data already in transit, as
+					// with TCP), so that what the peer still reads does not depend on goroutine timing.
 					if _, err := dst.Write(chunk); err != nil {
 						dead = true
-						_ = src.Close()
 					}
 				}
 			}
@@ -256,6 +260,26 @@ func c28Run(t *testing.T, sc c28Scenario, c *vsched.Chooser) (out vsched.Outcome
 			byClientConn[bc] = links[i]
 			cl.Put(bc)
 		}
+		var cmdChans []chan int
+		defer func() { // a panic of the root goroutine must not leave blocked goroutines behind
+			if p := recover(); p != nil {
+				for _, ch := range cmdChans {
+					close(ch)
+				}
+				for _, pk := range srv.parkedList() {
+					select {
+					case pk.cmd <- c28Close:
+					default:
+					}
+				}
+				for _, l := range links {
+					l.closeAll()
+				}
+				_ = cl.Close()
+				time.Sleep(time.Minute)
+				panic(p)
+			}
+		}()
 		var mu sync.Mutex
 		type caller struct {
 			cmd      chan int
@@ -269,6 +293,7 @@ func c28Run(t *testing.T, sc c28Scenario, c *vsched.Chooser) (out vsched.Outcome
 		for j := range callers {
 			cr := &caller{cmd: make(chan int)}
 			callers[j] = cr
+			cmdChans = append(cmdChans, cr.cmd)
 			for _, op := range sc.ops[j] {
 				cr.res = append(cr.res, &c28Result{op: op})
 			}
